@@ -89,7 +89,7 @@ PROPS = {
         "consts": ["n_le", "generator", "k_value", "xor_hash", "proof_length", "session_key_length", "reconnect_challenge_data_length"],
         "runner": "run_C02",
         "byte_exact": False,
-        "rule": "baseline sessions (tape-injected salt, b, a) through the public API; per session, compared with the Coq model: the accepted M1 plus single-bit flips of M1 in one batched server case (all 160 in thorough), the accepted M2 plus flips on the client, A with one bit changed, and client proofs computed with a changed salt bit, B bit, other password, other username (all must be refused with payload (presented, expected)) and a case-only change (must be accepted); implementation-only oracle: all 160 flips of M1 and M2 and random A/B/salt/credential changes on hundreds of sessions. Added in the second session: structured near misses of M1 and M2 (two bytes changed by the same XOR mask, +d/-d, swapped bytes, differences confined to the last bytes / the first byte, reversal) on both sides; sessions whose secret S has a rare byte shape (00 xx.., ..00, 00 xx 00.., 00 00 xx..) found by a textbook-arithmetic search, with the server run on the textbook M1 and the client on the textbook M2.",
+        "rule": "baseline sessions (tape-injected salt, b, a) through the public API; per session, compared with the Coq model: the accepted M1 plus single-bit flips of M1 in one batched server case (all 160 in thorough), the accepted M2 plus flips on the client, A with one bit changed, and client proofs computed with a changed salt bit, B bit, other password, other username (all must be refused with payload (presented, expected)) and a case-only change (must be accepted); implementation-only oracle: all 160 flips of M1 and M2 and random A/B/salt/credential changes on hundreds of sessions. Added in the second session: structured near misses of M1 and M2 (two bytes changed by the same XOR mask, +d/-d, swapped bytes, differences confined to the last bytes / the first byte, reversal) on both sides; sessions whose secret S has a rare byte shape (00 xx.., ..00, 00 xx 00.., 00 00 xx..) found by a textbook-arithmetic search, with the server run on the textbook M1 and the client on the textbook M2. Added in round 21: typed-credentials oracle (credentials over the characters that surround the ASCII letter ranges, in any case; verifier, M1, M2 and both session keys of the completed login must be the textbook values of the upper-cased text, computed without the crate's normalisation, and the server must accept that textbook proof).",
         "trusted": [BIG, SHA, "num-bigint primitives as modelled in model/Bigint.v"],
         "assumptions": ["'a different field is refused' is proved in collision form (C02_binding): acceptance with a differing field exhibits two different byte strings with equal SHA-1"],
     },
@@ -99,7 +99,7 @@ PROPS = {
         "consts": ["reconnect_challenge_data_length", "proof_length", "session_key_length"],
         "runner": "run_C05",
         "byte_exact": False,
-        "rule": "random histories (1..40 attempts quick, ..400 thorough) on logged-in servers drawn from {correct for the current challenge, replay of any earlier pair, proof for a stale challenge, wrong session key, wrong username, single-bit change of proof or client data}, every new server challenge injected through the RNG tape so the model predicts verdicts and challenges byte for byte; client reconnect values with injected challenge; implementation-only oracle: long histories with injected and with real randomness (verdict = proof equality, challenge replaced after every attempt, replays refused, legitimate client accepted). Added in the second session: near-miss proofs (cancelling / confined differences) as an attempt kind.",
+        "rule": "random histories (1..40 attempts quick, ..400 thorough) on logged-in servers drawn from {correct for the current challenge, replay of any earlier pair, proof for a stale challenge, wrong session key, wrong username, single-bit change of proof or client data}, every new server challenge injected through the RNG tape so the model predicts verdicts and challenges byte for byte; client reconnect values with injected challenge; implementation-only oracle: long histories with injected and with real randomness (verdict = proof equality, challenge replaced after every attempt, replays refused, legitimate client accepted). Added in the second session: near-miss proofs (cancelling / confined differences) as an attempt kind. Added in round 21: a quarter of the attempts present the client data of the previous or an earlier attempt again (with whatever kind of proof the attempt draws - a correct one for the challenge on offer must be accepted).",
         "trusted": [BIG, SHA],
         "assumptions": ["a replay is refused unless two challenges coincide or SHA-1 collides (C05_replay); distinctness of challenges is the RNG's job (C15)", "the server state (user, K, challenge) is read through the public accessors after a real login"],
     },
@@ -161,7 +161,7 @@ PROPS = {
         "consts": ["pin_ascii_offset", "min_pin_length", "max_pin_length", "pin_salt_size"],
         "runner": "run_C16",
         "byte_exact": True,
-        "rule": "remap_pin_grid (hook) on seeds {0, 1, 10!-1, 10!, 10!+1, 2^32-1, radix boundaries, random}; calculate_hash on PINs {0, 999, 1000, 1001, 9999, 10000, 99999, 10^9-1, 10^9, 2^32-1, random of every digit length 1..10} x seeds x random/zero/0xff salts; verify_client_pin_hash with the right hash, single-bit flips (all 160 in thorough), hashes for another PIN / seed / salt, seed+10!, PINs below 1000; implementation-only oracle against an independent specification in the harness: residues modulo 10! through the hook (quick: every 61st; thorough: EVERY residue 0..3,628,800: permutation, equals the specification, equals the grid of seed+10! and seed+2*10!), every PIN 0..9999 on one seed, random (pin, seed, salts) with verify iff. Added in the second session: near-miss hashes in the verify cases and the oracle.",
+        "rule": "remap_pin_grid (hook) on seeds {0, 1, 10!-1, 10!, 10!+1, 2^32-1, radix boundaries, random}; calculate_hash on PINs {0, 999, 1000, 1001, 9999, 10000, 99999, 10^9-1, 10^9, 2^32-1, random of every digit length 1..10} x seeds x random/zero/0xff salts; verify_client_pin_hash with the right hash, single-bit flips (all 160 in thorough), hashes for another PIN / seed / salt, seed+10!, PINs below 1000; implementation-only oracle against an independent specification in the harness: residues modulo 10! through the hook (quick: every 61st; thorough: EVERY residue 0..3,628,800: permutation, equals the specification, equals the grid of seed+10! and seed+2*10!), every PIN 0..9999 on one seed, random (pin, seed, salts) with verify iff. Added in the second session: near-miss hashes in the verify cases and the oracle. Added in round 21: in both tiers every small multiple (1..9) of every falling product 10, 10*9, .. and of every factorial 2!..9!, and both neighbours, as residues.",
         "trusted": [SHA],
         "assumptions": ["refusal of a wrong PIN is stated as accepted <-> presented = the specified hash; SHA-1 is not assumed injective"],
     },
